@@ -58,7 +58,7 @@ Record spec := mkSpec {
   p_done : list (N * N);                     (* completed handles: id, directory *)
   p_dropped : list N;                        (* ids no longer retained *)
   p_wals : list (N * fname);                 (* WAL file of each completed handle, as first seen in its document *)
-  p_d11 : list fname;                        (* files deleted by cleanups of table objects of dropped database objects *)
+  p_d11 : list (fname * bool);               (* files deleted by cleanups of table objects of dropped database objects; true = the dropped object had created the table *)
   p_nextdir : N }.
 
 Definition in_scope (sc : list own) (k : bytes) : bool := forallb (fun o => owns o k) sc.
@@ -190,9 +190,20 @@ Definition spec_read_ok (m : smap) (sc : list own) (r : robs) (c_scan c_get : N)
   flag (list_eqb kv_eqb (filter (fun kv => in_scope sc (fst kv)) (r_scan r)) (sm_sorted m)) c_scan ++
   flag (forallb (fun g => negb (in_scope sc (fst g)) || ob_eqb (snd g) (sm_get m (fst g))) (r_gets r)) c_get.
 
-Definition d11_files (w : world) : list fname :=
+(* files deleted by cleanups of table objects of DROPPED database objects. [d11_created]: tables the dropped object had created,
+   or had opened from a document while it was configured as the only owner (AllDataOwnership / a partition without
+   neighbours: a redeployed single operator) - these deletions ask nobody, so they can hit a live successor as well as retained
+   documents. [d11_any]: every deletion by a dropped object, also those decided by asking neighbours - they can still hit the
+   retained document the dropped object was restored from, but a live neighbour that lost a table is NOT in this class. *)
+Definition asks_nobody (x : wdb) : bool :=
+  match x_own x, x_nb x with OwnAll, _ => true | _, NbNone => true | _, _ => false end.
+Definition d11_created (w : world) : list fname :=
   flat_map (fun x => match x_state x with
-                     | Dropped => map o_name (filter (fun o => negb (o_fromdoc o) && cleanup_deletes w x o) (x_objs x))
+                     | Dropped => map o_name (filter (fun o => (negb (o_fromdoc o) || asks_nobody x) && cleanup_deletes w x o) (x_objs x))
+                     | _ => [] end) (g_dbs w).
+Definition d11_any (w : world) : list fname :=
+  flat_map (fun x => match x_state x with
+                     | Dropped => map o_name (filter (cleanup_deletes w x) (x_objs x))
                      | _ => [] end) (g_dbs w).
 
 Definition check_step (st : world * spec) (so : op * obs) : (world * spec) * list N :=
@@ -202,7 +213,7 @@ Definition check_step (st : world * spec) (so : op * obs) : (world * spec) * lis
   let restore_ok := match o, o_read ob with ORestore _ _ _ _ _, Some r => r_outcome r =? 0 | _, _ => false end in
   let p0 := spec_step p o restore_ok in
   let p1 := match o with
-            | OGc => mkSpec (p_dbs p0) (p_snaps p0) (p_tasks p0) (p_done p0) (p_dropped p0) (p_wals p0) (p_d11 p0 ++ d11_files w) (p_nextdir p0)
+            | OGc => mkSpec (p_dbs p0) (p_snaps p0) (p_tasks p0) (p_done p0) (p_dropped p0) (p_wals p0) (p_d11 p0 ++ map (fun n => (n, true)) (d11_created w) ++ map (fun n => (n, false)) (d11_any w)) (p_nextdir p0)
             | _ => p0 end in
   (* remember the WAL of every handle whose document is visible *)
   let p' := mkSpec (p_dbs p1) (p_snaps p1) (p_tasks p1) (p_done p1) (p_dropped p1)
@@ -232,13 +243,14 @@ Definition check_step (st : world * spec) (so : op * obs) : (world * spec) * lis
                 | _, _ => [] end in
   let c_gc := match o with OGc => flag (names_eqb (o_gcdel ob) (sort_names (gc_deleted w))) 7 | _ => [] end in
   (* ----- specification ----- *)
-  let d11 := p_d11 p' in
+  let d11 := map fst (p_d11 p') in
+  let d11c := map fst (filter snd (p_d11 p')) in
   let s_files := flat_map (fun h =>
                    if completed p' (h_id h) && retained p' (h_id h) then
                      flag (h_present h) 103 ++
                      (match h_missing h with [] => [] | ms => if subset_names ms d11 then [110] else [100] end)
                    else []) (o_handles ob) in
-  let s_live := flat_map (fun l => match l_missing l with [] => [] | ms => if subset_names ms d11 then [111] else [101] end) (o_live ob) in
+  let s_live := flat_map (fun l => match l_missing l with [] => [] | ms => if subset_names ms d11c then [111] else [101] end) (o_live ob) in
   let s_wal := match o with
                | ORetain _ _ | OStepCkpt _ _ =>
                    (* the update has been saved and its deletions did not fail: the WAL of every id that just left the
@@ -264,7 +276,7 @@ Definition check_step (st : world * spec) (so : op * obs) : (world * spec) * lis
                    | ORead d, Some r =>
                        match sget p' d with
                        | Some x => if r_outcome r =? 0 then spec_read_ok (s_map x) (s_scope x) r 13 13
-                                   else if (r_outcome r =? 4) && existsb (fun l => (l_db l =? d) && subset_names (l_missing l) d11 && negb (match l_missing l with [] => true | _ => false end)) (o_live ob) then [111] else [13]
+                                   else if (r_outcome r =? 4) && existsb (fun l => (l_db l =? d) && subset_names (l_missing l) d11c && negb (match l_missing l with [] => true | _ => false end)) (o_live ob) then [111] else [13]
                        | None => [] end
                    | _, _ => [] end in
   ((w', p'), c_rot ++ c_files ++ c_handles ++ c_live ++ c_read ++ c_gc ++ s_files ++ s_live ++ s_wal ++ s_during ++ s_restore).
